@@ -153,7 +153,13 @@ class MemBackend(TrialBackend):
 
 
 WORKER_SRC = r"""
-import json, os, sys, time
+import json, os, signal, sys, time
+def _on_term(signum, frame):
+    # a training script that handles SIGTERM gracefully: it finishes its step, reports once more and goes on to its end
+    # (a backend that stops its jobs with SIGKILL never gets here)
+    sys.stdout.write('[tune-metric]: {"run": -1, "idx": -1, "st_worker_timestamp": 0}\n')
+    sys.stdout.flush()
+signal.signal(signal.SIGTERM, _on_term)
 args = dict(zip(sys.argv[1::2], sys.argv[2::2]))
 ctl = args["--ctl"]
 ack = ctl + ".ack"
@@ -350,9 +356,10 @@ def _real_local_class():
 
         def _killed(self, trial_id):
             try:
-                self.trial_subprocess[trial_id].wait(timeout=20)
+                self.trial_subprocess[trial_id].wait(timeout=3)
             except Exception:  # noqa
-                pass
+                # the job is still alive after the backend stopped / paused it
+                self.survivors = getattr(self, "survivors", []) + [int(trial_id)]
             e = self.env[trial_id]
             if e["proc"] == "running":
                 e["proc"] = "killed"
@@ -619,7 +626,9 @@ def run_scenario(spec):
         return out
 
     try:
-        return _run_scenario_body(spec, be, sch, tuner, lines, events, hist, count, do)
+        res = _run_scenario_body(spec, be, sch, tuner, lines, events, hist, count, do)
+        res["survivors"] = list(getattr(be, "survivors", []))
+        return res
     finally:
         if hasattr(be, "close"):
             be.close()
